@@ -156,11 +156,14 @@ def check(ctx) -> Result:
     res.floor("C1 held circuit fields", n3, 4)
     rc_owner.c1_self_readonly(ctx, res, [(CIRC, "Circuit.display", None)])
     # ---- option validation
+    from ..inline import with_helpers as _wh
     for ci, fn in ((DS, "__init__"), (DM, "draw")):
-        f = ci.methods[fn]
+        f = _wh(ctx, ci.methods[fn], inline_locals=False)
         guards = [n for n in walk_no_nested(f.node) if isinstance(n, ast.If) and "len(" in src(n.test) and "mode_labels" in src(n.test) and any(isinstance(b, ast.Raise) and "DisplayError" in src(b) for b in n.body)]
         uses = [n for n in walk_no_nested(f.node) if isinstance(n, ast.Subscript) and "mode_labels" in src(n.value) and isinstance(n.ctx, ast.Load)]
-        ok = bool(guards) and bool(uses) and all(g.lineno < u.lineno for g in guards for u in uses)
+        from ..inline import preorder_index as _pre
+        _ix = _pre(f.node)
+        ok = bool(guards) and bool(uses) and all(_ix[id(g)] < _ix[id(u)] for g in guards for u in uses)
         exp = False
         if guards:
             t = guards[0].test
